@@ -652,6 +652,11 @@ def check(prop, tier):
             env["GORACE"] = "log_path=%s halt_on_error=0 exitcode=0 history_size=4" % os.path.join(outdir, "race.replay")
             env["GOMAXPROCS"] = "4"
         r = run([rbin, "-mode", "replay", "-file", path], env=env, capture_output=True, text=True, cwd=outdir)
+        if r.returncode != 1 and v.get("native_fallback") and (v.get("violation") or {}).get("class") == "deadlock":
+            # "nothing finished within 15 s" under real scheduling, and 25 repetitions in a fresh process all
+            # finished: a slow machine is as good an explanation as a lost wake-up. Not a verdict.
+            unreproduced.append((k, path, r.returncode, (r.stdout + r.stderr)[-2000:]))
+            continue
         if r.returncode != 1 and v.get("native_fallback"):
             # observed by a worker under real goroutine scheduling (native fallback): the observation itself
             # (race report / wrong result / goroutines blocked for 15 s) is the evidence; replay is statistical
